@@ -110,6 +110,13 @@ typedef struct {
     VmString **intern_table;
     uint32_t intern_count;
     uint32_t intern_capacity;
+    /* Containers whose last reference went away while another container was being
+     * freed: vm_release() frees them one after the other instead of recursing, so the
+     * nesting depth of a value is not limited by the C stack. */
+    NanoValue *dead;
+    uint32_t dead_count;
+    uint32_t dead_capacity;
+    bool releasing;
 } VmHeap;
 
 /* ========================================================================
